@@ -385,13 +385,15 @@ func runC04(c *an.Ctx) {
 			})
 		}
 		var missing []string
-		for _, f := range []string{"Rcode", "AuthenticatedData", "RecursionAvailable", "Answer", "Ns", "Extra"} {
+		// every header flag that SetReply does not derive from the request (QR, opcode, RD, CD) comes from the
+		// stored message: AA, RA, Z, AD (a truncated answer is never stored)
+		for _, f := range []string{"Rcode", "Authoritative", "AuthenticatedData", "RecursionAvailable", "Zero", "Answer", "Ns", "Extra"} {
 			if !copied[f] {
 				missing = append(missing, f)
 			}
 		}
 		c.Check(len(missing) == 0, "C04-R5", "dnsserver/cache.(*Middleware).fromCacheItem coverage", fn.Pos(),
-			"rcode, AD, RA and the three sections are rebuilt from the cached item",
+			"rcode, AA, AD, RA, Z and the three sections are rebuilt from the cached item",
 			"the hit path does not rebuild "+strings.Join(missing, ", ")+" from the cached item: a cached answer differs from a fresh one")
 	}
 	// ---- R5b ecscache hit path: clone + SetRcode(item rcode) + setRespAD from this request
